@@ -434,7 +434,7 @@ def run(tier, seed):
                                {"kind": "corpus", "job": j, "observed": {"kind": "oscillation", "run": run_}})
 
         # ---------------------------------------------------- deep nesting up to depth 200
-        depths = (10, 100, 200) if quick else (10, 50, 100, 150, 200)
+        depths = (10, 40, 100, 200) if quick else (10, 33, 50, 100, 150, 200)
         dreqs = deep_requests(root, depths)
         log(f"[C12] deep nesting: {len(dreqs)} generated headers up to depth {max(depths)}")
         dres = run_requests(dreqs, timeout=600)
@@ -462,6 +462,23 @@ def run(tier, seed):
                     if run_.get("oscillation") is not None:
                         record({"class": "non-termination", "tier": "deep-nesting", "shape": kind_, "analysis": run_["analysis"]},
                                {"kind": "corpus", "job": j, "observed": {"kind": "oscillation", "run": run_}})
+
+        # ---------------------------------------------------- headers clang rejects must yield ClangDiagnostic
+        rreqs = rejected_requests(root)
+        rres = run_requests([r for r, _ in rreqs], timeout=300)
+        for (rq, clang_rejects), r in zip(rreqs, rres):
+            scen_total += 1
+            j = rq["job"]
+            distinct.add(("rejected", j["id"]))
+            outcomes[r.get("kind")] = outcomes.get(r.get("kind"), 0) + 1
+            if not clang_rejects:
+                out.harness_errors.append(f"clang accepts {j['id']}, which is meant to be a rejected header")
+                continue
+            v = classify(r, ["rejected"], None, expect="ClangDiagnostic")
+            if v:
+                sig = dict(v, tier="rejected-header", header=j["id"].split(":")[1])
+                sig.pop("message", None)
+                record(sig, {"kind": "corpus", "job": dict(j, inline_source=REJECTED[j["id"].split(":")[1]]), "observed": r})
 
         # ---------------------------------------------------- configuration sweep (seeded sampling of the flag space)
         ncfg = 1500 if quick else 40000
@@ -596,12 +613,62 @@ def deep_source(kind, d):
     if kind == "fnptr":
         return ("typedef int (*f0)(int);\n" + "".join(f"typedef f{i} (*f{i + 1})(f{i});\n" for i in range(d)) +
                 f"struct F {{ f{d} f; }};"), "c"
+    if kind == "ring":
+        # d structs linked into one cycle by pointers: every type is first met
+        # through its predecessor, so the whole ring is on the parse stack at once
+        return ("".join(f"struct R{i};\n" for i in range(d)) +
+                "".join(f"struct R{i} {{ struct R{(i + 1) % d}* next; int v{i}; }};\n" for i in range(d))), "c"
+    if kind == "ring_template":
+        body = "".join(f"    struct N{i} {{ N{(i + 1) % d}* next; T v; }};\n" for i in reversed(range(d)))
+        fwd = "".join(f"    struct N{i};\n" for i in range(d))
+        # the static_asserts force clang to instantiate every member struct of Ring<int>
+        asserts = "".join(f"    static_assert(sizeof(N{i}) > 0, \"\");\n" for i in range(d))
+        return (f"template <typename T> struct Ring {{\n{fwd}{body}{asserts}}};\nstruct User {{ Ring<int>::N0 head; }};\n"), "c++"
     if kind == "namespace":
         return ("".join(f"namespace n{i} {{ struct S{i} {{ int a; }}; " for i in range(d)) + "}" * d), "c++"
     raise ValueError(kind)
 
 
-DEEP_KINDS = ["struct", "ptr", "array", "template", "typedefchain", "inherit", "fnptr", "namespace"]
+DEEP_KINDS = ["struct", "ptr", "array", "template", "typedefchain", "inherit", "fnptr", "namespace", "ring",
+              "ring_template"]
+
+
+# ---------------------------------------------------------------- headers clang rejects
+
+REJECTED = {
+    "toplevel-syntax.h": "struct Broken { int a; \nint oops(;\n",
+    "unknown-type.h": "struct U { not_a_type x; };\n",
+    "error-in-function-body.h": "struct point { int x, y; };\nstatic inline int area(struct point* p) { return p->x * p->z; }\n",
+    "error-in-inline-body-cpp.hpp": "struct P { int x; int get() const { return this->nope; } };\n",
+    "error-directive.h": "#error this header must not be used\nstruct E { int e; };\n",
+    "missing-include.h": "#include \"does_not_exist_anywhere.h\"\nstruct M { int m; };\n",
+    "error-in-macro.h": "#define DECL(t, n) t n\nDECL(int, 3x);\nstruct K { int k; };\n",
+    "redefinition.h": "struct D { int a; };\nstruct D { long b; };\n",
+    "template-error.hpp": "template <typename T> struct W { typename T::nested v; };\nW<int> w;\n",
+    "static-assert.hpp": "static_assert(sizeof(int) == 3, \"no\");\nstruct S { int s; };\n",
+    "undeclared-in-default-arg.hpp": "int f(int a = undeclared_name);\n",
+    "bad-array-size.h": "struct A { int a[-1]; };\n",
+    "incomplete-field.h": "struct Inc; struct H { struct Inc i; };\n",
+}
+
+
+def rejected_requests(root):
+    d = os.path.join(root, "rejected")
+    os.makedirs(d, exist_ok=True)
+    reqs = []
+    for name, text in sorted(REJECTED.items()):
+        path = os.path.join(d, name)
+        with open(path, "w") as f:
+            f.write(text)
+        cpp = name.endswith(".hpp")
+        extra = ["-x", "c++", "-std=c++14"] if cpp else ["-x", "c", "-std=c11"]
+        # the property's classifier: does clang itself accept the header?
+        p = subprocess.run(["clang", "-fsyntax-only"] + extra + [path], stdout=subprocess.DEVNULL, stderr=subprocess.DEVNULL)
+        for variant, vflags in (("default", []), ("inline-fns", ["--generate-inline-functions"])):
+            reqs.append(({"op": "gen", "job": {"id": f"rejected:{name}:{variant}", "header": path,
+                                               "flags": list(BASE_FLAGS) + vflags + ["--"] + extra}, "arm_steps": True},
+                         p.returncode != 0))
+    return reqs
 
 
 def deep_requests(root, depths):
